@@ -15,7 +15,6 @@
 //!            str:s<hex> / str:- String literal (ASCII) · nid:<type> / nid:bad NodeId of a data type
 use super::c06::{self, T, V};
 use crate::common::*;
-use opcua::server::address_space::AddressSpace;
 use opcua::server::events::event_filter;
 use opcua::types::operand::Operand;
 use opcua::types::service_types::{
@@ -533,8 +532,8 @@ impl<'a> RefCtx<'a> {
                 V::F32(f) => RV::F32(*f),
                 V::F64(f) => RV::F64(*f),
             }),
-            // a null String is a NULL value
-            Opd::Lit(Lit::Str(None)) => Ok(RV::Null),
+            // whether a null String counts as a NULL value is not specified: not checked
+            Opd::Lit(Lit::Str(None)) => Ok(RV::Unknown),
             Opd::Lit(Lit::Str(Some(s))) => Ok(RV::Str(s.clone())),
             Opd::Lit(Lit::Nid(_)) => Ok(RV::Nid),
         }
@@ -601,11 +600,21 @@ impl<'a> RefCtx<'a> {
                 }
             }
             Op::InList => {
-                let v0 = self.value(&ops[0], path)?;
+                // an operand below which an unsupported operator sits: the implementation treats the
+                // single Equals as not TRUE instead of failing the clause; not specified, not checked
+                let v0 = match self.value(&ops[0], path) {
+                    Err(RefErr::Unsupported) => return Ok(RV::Unknown),
+                    r => r?,
+                };
                 let mut unknown = false;
                 let mut found = false;
                 for o in &ops[1..] {
-                    let v = self.value(o, path)?;
+                    // "the Equals operator is evaluated for each remaining operand": one that cannot
+                    // be evaluated (unsupported operator below it) is not equal
+                    let v = match self.value(o, path) {
+                        Err(RefErr::Unsupported) => continue,
+                        r => r?,
+                    };
                     self.note_compare(&v0, &v);
                     match ref_compare(&v0, &v) {
                         None => unknown = true,
@@ -1000,16 +1009,14 @@ impl Prop for C39 {
     }
 
     fn runner(&self) -> Box<dyn Runner> {
-        Box::new(R {
-            elems: Vec::new(),
-            address_space: AddressSpace::new(),
-        })
+        Box::new(R { elems: Vec::new() })
     }
 }
 
+/// The address space is only read (SimpleAttributeOperands that resolve to nothing), so the
+/// shared fixture can be used: a case never depends on an earlier one.
 struct R {
     elems: Vec<Elem>,
-    address_space: AddressSpace,
 }
 
 impl R {
@@ -1058,7 +1065,8 @@ impl Runner for R {
                     select_clauses: None,
                     where_clause: real_filter(&self.elems),
                 };
-                match event_filter::validate(&filter, &self.address_space) {
+                let address_space = crate::fixtures::server().address_space.read();
+                match event_filter::validate(&filter, &address_space) {
                     Ok(r) => {
                         let codes: Vec<String> = r
                             .where_clause_result
@@ -1075,7 +1083,8 @@ impl Runner for R {
             ["eval"] => {
                 let filter = real_filter(&self.elems);
                 let object_id = NodeId::root_folder_id();
-                let res = hook::evaluate_where_clause(&object_id, &filter, &self.address_space);
+                let address_space = crate::fixtures::server().address_space.read();
+                let res = hook::evaluate_where_clause(&object_id, &filter, &address_space);
                 let line = match &res {
                     Ok(v) => format!("ok {}", show_variant(v)),
                     Err(e) => format!("err {}", e),
